@@ -53,9 +53,9 @@ class Tee(object):
     def flush(self):
         """ Force commit changes to the file and stdout """
         if not self.silent:
-            if not self.nostdout:
+            if not self.nostdout and self.stdout is not None:
                 self.stdout.flush()
-            if self.file is not None:
+            if self.file is not None and not self.file.closed:
                 self.file.flush()
 
     # def disable(self):
